@@ -230,6 +230,132 @@ def scaled (D : Int) (s : List Bool) : Int := (finishedCount s : Int) * (D / (s.
 def totalOfStages (stages : List (List Bool)) (ws : List Int) : Int :=
   progress ((stages.map (scaled (prodLen stages))).zip ws)
 
+/-! ## Final states of components and the controller's record of observed terminations
+
+A component terminates in one of three final states (`ComponentState.finish`: FINISHED, SHUTDOWN —
+stopped by `_stopComponents` after the package's `IsStageComplete` hook / `shutdownOn` / the failure of
+a stage mate —, FAILED).  The controller *observes* a termination in `finishedCheck`, which adds the
+component to `comp_done` whatever its final state.  `Controller.node_is_active` = "not in
+`comp_done`".  The two stage lists of a status check are derived from `comp_done` only:
+
+* `get_stages_in_transit`: stages with an active node,
+* `get_stages_finished`:   stages without an active node,
+
+while `get_stage_status` counts the components whose own state is FINISHED over the population. -/
+
+inductive Final where
+  | finished
+  | shutdown
+  | failed
+  deriving DecidableEq, Repr
+
+/-- `st`: the final state the component reached (`none`: still alive); `seen`: it is in `comp_done` -/
+structure Comp where
+  st : Option Final
+  seen : Bool
+  deriving DecidableEq, Repr
+
+def Comp.fresh : Comp := ⟨none, false⟩
+
+/-- `Controller.node_is_active` -/
+def Comp.active (c : Comp) : Bool := !c.seen
+
+/-- `comp.state in [FINISHED_STATE]` (`get_stage_status`): the component's own state -/
+def Comp.succeeded (c : Comp) : Bool := decide (c.st = some Final.finished)
+
+/-- `Controller.get_node_state(..) == FINISHED_STATE`: RUNNING until observed, then the own state -/
+def Comp.stateFinished (c : Comp) : Bool := c.seen && c.succeeded
+
+def succCount : List Comp → Nat
+  | [] => 0
+  | c :: r => (if c.succeeded then 1 else 0) + succCount r
+
+/-- the stage has a node that the controller has not observed terminating -/
+def hasActive (s : List Comp) : Bool := s.any Comp.active
+
+/-- `Controller.get_stages_in_transit` -/
+def inTransitOf (ss : List (List Comp)) : List Nat :=
+  (List.range ss.length).filter (fun k => hasActive (ss.getD k []))
+
+/-- `Controller.get_stages_finished` -/
+def finishedOf (ss : List (List Comp)) : List Nat :=
+  (List.range ss.length).filter (fun k => !hasActive (ss.getD k []))
+
+/-- A variant of `get_stages_in_transit` that skips a node by its STATE being FINISHED instead of by
+`comp_done` membership (for the witness: it disagrees with `finishedOf` on stages that completed with
+a SHUTDOWN / FAILED component). -/
+def inTransitByStateOf (ss : List (List Comp)) : List Nat :=
+  (List.range ss.length).filter (fun k => (ss.getD k []).any (fun c => !c.stateFinished))
+
+def prodLenC : List (List Comp) → Int
+  | [] => 1
+  | s :: r => (s.length : Int) * prodLenC r
+
+/-- `get_stage_status` over the common scale `D` -/
+def scaledC (D : Int) (s : List Comp) : Int := (succCount s : Int) * (D / (s.length : Int))
+
+/-- the per-stage progress values a check reads (numerators over `prodLenC ss`) -/
+def progC (ss : List (List Comp)) : Nat → Int := fun k => scaledC (prodLenC ss) (ss.getD k [])
+
+/-- the total one `CheckStatus` reports on controller state `(cur, ss)`: numerator over `prodLenC ss · one` -/
+def compTotal (cur : Nat) (ss : List (List Comp)) (ws : List Int) : Int :=
+  checkTotal (prodLenC ss) cur (inTransitOf ss) (finishedOf ss) (progC ss) ws
+
+/-- the same with the by-state in-transit list (witness) -/
+def compTotalByState (cur : Nat) (ss : List (List Comp)) (ws : List Int) : Int :=
+  checkTotal (prodLenC ss) cur (inTransitByStateOf ss) (finishedOf ss) (progC ss) ws
+
+/-- `ComponentState.finish(f)`: the first final state sticks -/
+def Comp.term (f : Final) (c : Comp) : Comp :=
+  match c.st with
+  | none => { c with st := some f }
+  | some _ => c
+
+/-- `finishedCheck` delivered (only terminations are notified): `comp_done.add` -/
+def Comp.see (c : Comp) : Comp :=
+  match c.st with
+  | none => c
+  | some _ => { c with seen := true }
+
+/-- `_fake_finish_with_state(SHUTDOWN)` / `_stopComponents` of a component that has not terminated,
+followed by its notification -/
+def Comp.stop (c : Comp) : Comp :=
+  match c.st with
+  | none => ⟨some Final.shutdown, true⟩
+  | some _ => c
+
+inductive COp where
+  /-- component `i` of stage `k` terminates in final state `f` -/
+  | term (k i : Nat) (f : Final)
+  /-- the controller observes the termination of component `i` of stage `k` (`finishedCheck`) -/
+  | see (k i : Nat)
+  /-- stage `k` gains `m` new components (next DoWhile iteration) -/
+  | grow (k m : Nat)
+  /-- every component of stage `k` that has not terminated is stopped (SHUTDOWN) and observed -/
+  | stop (k : Nat)
+  /-- the stage loop moves on -/
+  | next
+
+structure CState where
+  cur : Nat
+  stages : List (List Comp)
+
+def stepC (c : CState) : COp → CState
+  | .term k i f => { c with stages := modifyAt (fun s => modifyAt (Comp.term f) s i) c.stages k }
+  | .see k i => { c with stages := modifyAt (fun s => modifyAt Comp.see s i) c.stages k }
+  | .grow k m => { c with stages := modifyAt (fun s => s ++ List.replicate m Comp.fresh) c.stages k }
+  | .stop k => { c with stages := modifyAt (fun s => s.map Comp.stop) c.stages k }
+  | .next => { c with cur := c.cur + 1 }
+
+def runC (c : CState) : List COp → CState
+  | [] => c
+  | o :: r => runC (stepC c o) r
+
+/-- observed ⇒ terminated -/
+def Comp.wf (c : Comp) : Bool := !c.seen || c.st.isSome
+
+def wfStages (ss : List (List Comp)) : Bool := ss.all (fun s => s.all Comp.wf)
+
 /-- The algorithm before the repair (kept for the witnesses): `ts` are the truncated
 thousandths `int(w*1000)` computed by CPython. -/
 def keptOld (ts : List Int) : Bool := decide (sum ts = 1000)
